@@ -57,22 +57,51 @@ def k1(ctx):
         ctx.check(f["vis"] not in ("pub", "crate"), "private-field:" + f["name"], "ProvenEqRaw.%s is private to explain::proof (%s)" % (f["name"], f["vis"]),
                   "ProvenEqRaw.%s is visible as `%s`: proof objects can be forged outside the kernel" % (f["name"], f["vis"]))
     seen = {}
+
+    def kernel_of(root):
+        for k in KERNELS:
+            if (root.impl_self or "").endswith("proof::" + k) and root.name == "check" and (root.file or "").endswith("explain/proof.rs"):
+                return k
+        return None
+
+    def constructs(b):
+        return [(bi, s_) for bi, si, s_ in b.statements() if s_["k"] == "assign" and s_["rv"]["k"] == "agg" and s_["rv"].get("adt") == "explain::proof::ProvenEqRaw"]
+    # private constructor helpers of the kernel module: only the kernels (or other such helpers) may call them
+    makers = {}
     for b in crate.bodies.values():
-        for bi, si, s in b.statements():
-            rv = s["rv"] if s["k"] == "assign" else None
-            if not rv or rv["k"] != "agg" or rv.get("adt") != "explain::proof::ProvenEqRaw":
-                continue
-            root = crate.root_of(b)
-            if root.auto_derived:
-                continue   # derive(Clone): copies an existing, already checked value
-            kern = None
-            for k in KERNELS:
-                if (root.impl_self or "").endswith("proof::" + k) and root.name == "check":
-                    kern = k
-            if not ctx.check(kern is not None and (root.file or "").endswith("explain/proof.rs"), "constructed-in-kernel:" + C.fkey(root),
-                             "ProvenEqRaw is constructed in kernel %s::check" % kern,
-                             "%s constructs a ProvenEqRaw outside the five *Proof::check kernels: a proof object that no rule has checked" % C.short(root.id), where_of(b, bi, s.get("line"))):
-                continue
+        root = crate.root_of(b)
+        if root.auto_derived or not constructs(b):
+            continue
+        makers.setdefault(root.id, root)
+    helpers = {}
+    for rid, root in makers.items():
+        if kernel_of(root) is None and (root.file or "").endswith("explain/proof.rs") and str(root.vis).startswith("in:explain::proof"):
+            helpers[rid] = root
+    callers_of = {}
+    for b in crate.bodies.values():
+        for c in b.calls:
+            if c.callee and c.callee.target in helpers and not b.blocks[c.bb]["cleanup"]:
+                callers_of.setdefault(c.callee.target, set()).add(crate.root_of(b).id)
+    for hid, h in sorted(helpers.items()):
+        outside = sorted(x for x in callers_of.get(hid, set()) if kernel_of(crate.bodies[x]) is None and x not in helpers)
+        ctx.check(not outside, "kernel-helper-confined:" + C.fkey(h), "%s (private to explain::proof) builds proof objects for the kernels only" % C.short(hid),
+                  "%s builds a ProvenEqRaw and is called from %s, which is not one of the five *Proof::check kernels: a proof object that no rule has checked" % (C.short(hid), [C.short(x) for x in outside]), where_of(h))
+    for rid, root in sorted(makers.items()):
+        kern = kernel_of(root)
+        if kern is None and rid in helpers:
+            continue
+        if not ctx.check(kern is not None, "constructed-in-kernel:" + C.fkey(root),
+                         "ProvenEqRaw is constructed in kernel %s::check" % kern,
+                         "%s constructs a ProvenEqRaw outside the five *Proof::check kernels: a proof object that no rule has checked" % C.short(root.id), where_of(root)):
+            continue
+    for b0 in crate.fns():
+        kern = kernel_of(b0)
+        if kern is None:
+            continue
+        b = mir.inline_view(crate, b0, depth=2, policy=set(helpers)) if helpers else b0
+        for bi, s in constructs(b):
+            rv = s["rv"]
+            root = b0
             seen[kern] = seen.get(kern, 0) + 1
             pr = strip_role(b.role_of_operand(rv["ops"][rv["fields"].index("proof")]))
             var = pr[1].split("::")[-1] if pr[0] == "agg" else None
@@ -85,7 +114,6 @@ def k1(ctx):
             if kern != "ExplicitProof":
                 ctx.check(g >= 1, "premise-guard:" + kern, "%s::check constructs only behind %d premise guard(s)" % (kern, g),
                           "%s::check constructs a proof object without any premise check (every claimed %s step is accepted)" % (kern, KERNELS[kern].lower()), where_of(b, bi, s.get("line")))
-            # the result goes through the registry
     for k in KERNELS:
         ctx.check(seen.get(k, 0) == 1, "kernel-present:" + k, "%s::check is a kernel (1 construction)" % k, "%s::check has %d constructions" % (k, seen.get(k, 0)))
 
